@@ -1,11 +1,11 @@
 (* PoolFrame.v — frame properties of the API-history interpreter of Pool.v:
    what a call may change in the pool (C15/C16/C17/C18). *)
-From Verif Require Import Base Sorter Value Seq Coll Pool.
+From Verif Require Import Base Sorter Value Seq Coll CollP Pool.
 
 (* the only existing slot an op may overwrite: its receiver *)
 Definition writes (o : op) : option nat :=
   match o with
-  | SliceSet s _ _ | GoMapSet s _ _ | GoMapDel s _ => Some s
+  | SliceSet s _ _ | GoMapSet s _ _ | GoMapDel s _ | SortSlice s _ | AssocSet s _ _ => Some s
   | SetValue r _ _ | SetValues r _ _ | InsertValue r _ _ | InsertValues r _ _
   | AppendValue r _ | AppendValues r _ | RemoveValue r _ | RemoveValues r _ _ | RemoveAll r
   | SortValues r | SortWith r _ | ReverseValues r | ShuffleValues r _
@@ -52,7 +52,9 @@ Local Opaque sort_values reverse_values shuffle_values set_and set_or set_sans s
   a_set a_remove a_merge a_extract a_remove_all a_set_all a_get_or_zero
   get_value get_values set_value set_values insert_value insert_values remove_value remove_values
   get_index contains_value contains_any contains_all stack_push stack_pop build reorder seq_view
-  rank0 compare0 get_next get_prev to_slot.
+  rank0 compare0 get_next get_prev to_slot
+  set_and_p set_or_p set_sans_p set_xor_p set_add_p set_remove_p set_contains_p set_contains_any_p set_contains_all_p
+  set_get_index_p set_operand set_like.
 
 Ltac brk :=
   repeat match goal with
